@@ -365,6 +365,16 @@ def gen_specs(chk, pid):
         craft_file(init, 6, live)
         ops = [("add", pool["EV"][1], None), ("remove", live[0][0]), ("add", pool["EM"][1], None), ("remove", live[1][0]), ("set", pool["EV"][2])]
         specs.append(("crafted N=6 live=3 (foreign dates)", init, [ops[:2], ops[2:]], "dates at the ends of the 32-bit range and before 1970"))
+    # a comment of exactly the field width (and one less) on an entry in the MIDDLE of the table, then removals and
+    # replacements in front of it: the entries behind are re-serialised and must stay on their 288-byte grid
+    for j, clen in enumerate((256, 255, 256) if quick else (256, 255, 256, 255, 257, 256)):
+        init = crafted(chk.work, "widecomment%d" % j, 5, opaque_live(rng, j % 2), rng)
+        k1, k2, k3 = rng.sample(["EV", "EM", "D3", "FT", "PD"], 3)
+        wide = ("add", pool[k2][1], "w" * clen) if j % 3 != 2 else ("replace", pool[k2][2], "w" * clen)
+        pre = [("add", pool[k1][1], None)] + ([("add", pool[k2][1], "short")] if wide[0] == "replace" else [])
+        ops = pre + [wide, ("add", pool[k3][1], "behind"), ("remove", blocks.TY[k1]), ("set", pool[k3][2]) if k3 in SETTER else ("replace", pool[k3][2], None),
+                     ("remove", blocks.TY[k2])]
+        specs.append(("crafted N=5 + %d opaque" % (j % 2), init, [ops[:3], ops[3:]], "comment of the full field width in the middle of the table"))
     # --- 4. large payloads: tail moves of more than 64 KiB
     bigs = [s for s in pool["EM"] if len(repr(s.v)) > 100000]
     for j in range(2 if quick else 8):
@@ -373,8 +383,8 @@ def gen_specs(chk, pid):
                ("remove", rng.choice([16, 16, 11])), ("set", pool["D3"][1]), ("replace", bigs[0], None), ("remove", 11)]
         specs.append(("crafted N=5 + 1 opaque block", init, [ops[:4], ops[4:]] if j % 2 else [ops], "large payload (>64 KiB tail)"))
     # --- 4b. a tail of several MiB behind the block that is removed / replaced (what a chunked or buffered move sees):
-    #         just above 4 MiB; in the thorough tier also above 8 and 16 MiB
-    sizes = ([4 * 2 ** 20 + 4097] if pid in ("C04", "C09", "C11") else []) if quick else [4 * 2 ** 20 + 4097, 8 * 2 ** 20 + 513, 16 * 2 ** 20 + 1]
+    #         just above 4 MiB; in the thorough tier also above 8 MiB
+    sizes = ([4 * 2 ** 20 + 4097] if pid in ("C04", "C09", "C11") else []) if quick else [4 * 2 ** 20 + 4097, 8 * 2 ** 20 + 513]
     for j, size in enumerate(sizes):
         live = [(13, 1, rng.randbytes(40 + j), T0 - 5, T0 - 4, T0 - 3, "small"),
                 (14, 1, rng.randbytes(size), T0 - 5, T0 - 4, T0 - 3, "several MiB")]
